@@ -509,7 +509,11 @@ def run(ctx):
         dyadic = rng.random() < 0.85
         rate = rng.choice(RATES) if dyadic else rng.choice([0.1, 0.3, 1 / 3, 0.7, 1.7, 0.01])
         cfg = {"capacity": rng.choice([1, 2, 3, 5, 10, 20]), "rate": rate, "retry_after": rng.choice([1, 7, 30, 120])}
-        addrs = ["10.0.0.1", "10.0.0.2", "2001:db8::7"][: rng.choice([1, 1, 2, 3])]
+        # address texts that resemble each other: same leading / trailing group, zero-compressed forms, a
+        # mapped and a plain form of one IPv4 address, an address that is a textual prefix of another
+        pools = [["10.0.0.1", "10.0.0.2", "2001:db8::7"], ["2001:db8:0:1::1", "2001:db8:0:2::1", "::1"], ["2001:db8::", "fe80::", "::"],
+                 ["10.0.0.1", "::ffff:10.0.0.1", "10.0.0.11"], ["1.2.3.4", "11.2.3.4", "1.2.3.41"], ["fe80::1%eth0", "fe80::1%eth1", "fe80::1"]]
+        addrs = pools[i % len(pools)][: rng.choice([1, 2, 2, 3])]
         length = rng.choice([100, 300, 1000] if ctx.quick() else [100, 300, 1000, 3000])
         t = 0.0
         events = []
